@@ -439,9 +439,48 @@ def correspondence(run):
                  {"program": text, "data": data, "host_contexts_after": repr(after), "theorem": "C09_context_frame"})
 
 
+def handmade(run):
+    """A host chain built by hand (no `#finalize`, no `#iter` anywhere): the very FIRST evaluation against it must
+    leave variables, function tables and exclusivity of every level as they were."""
+    from yaql.language import contexts, conventions
+    from yaql.standard_library import (boolean as std_boolean, collections as std_collections, common as std_common,
+                                       math as std_math, queries as std_queries, strings as std_strings,
+                                       system as std_system)
+    texts = ["1 + 2", "$.l.select($ * 2)", "$.d.keys()", "let(x => 1) -> $x", "def(f, $ + 1) -> f(1)", "[1, 2].len()",
+             "$.t + 'x'", "$.l.where($ > 1).toList()", "$.s", "{a => [1]}"]
+    for text in texts:
+        for with_parent in (False, True):
+            base = contexts.Context(convention=conventions.CamelCaseConvention())
+            std_system.register_fallbacks(base)
+            ctx = base.create_child_context() if with_parent else base
+            std_system.register(ctx, False)
+            for m in (std_common, std_boolean, std_strings, std_math):
+                m.register(ctx)
+            std_collections.register(ctx, False)
+            std_queries.register(ctx, True)
+            ctx["hv"] = [1, 2]
+            chain = [ctx] + ([base] if with_parent else [])
+            before = ctx_snapshot(chain)
+            data = host_data()
+            frozen = freeze(data)
+            try:
+                ec.engine()(text).evaluate(data=data, context=ctx)
+            except Exception:
+                pass
+            run.case(("handmade", text, with_parent), nontrivial=True)
+            run.count("handmade_chain")
+            if ctx_snapshot(chain) != before or freeze(data) != frozen:
+                run.fail("violation", "the first evaluation against a hand-built context chain changed the host's chain "
+                                      "(variables / function table / exclusivity) or its data",
+                         {"expression": text, "chain_has_parent": with_parent, "before": repr(before)[:700],
+                          "after": repr(ctx_snapshot(chain))[:700]})
+                return
+
+
 def oracle(run, deep):
     sweep(run, deep)
     sequences(run)
+    handmade(run)
 
 
 def replay(run, data):
